@@ -109,21 +109,38 @@ func (o *Once) Do(f func()) {
 
 // Pool is a deterministic LIFO pool.  Get normally returns the most recently Put object
 // (maximal reuse, the interesting case for lifetime bugs); returning a fresh object from
-// New instead is a 'pool' deviation.
+// New instead is a 'pool' deviation.  Under the scheduler the list itself needs no lock
+// (one thread runs at a time) and must not have one: a shared lock would create
+// happens-before edges between unrelated Get/Put pairs and hide races from the detector.
+// Like the real sync.Pool, only Put(x) -> Get() returning the same x is ordered (per-item
+// channel hand-off).
 type Pool struct {
 	New   func() any
-	items []any
+	items []poolItem
 	mu    sync.Mutex
+}
+
+type poolItem struct {
+	v  any
+	hb chan struct{}
+}
+
+func (p *Pool) pop() (any, bool) {
+	if n := len(p.items); n > 0 {
+		it := p.items[n-1]
+		p.items = p.items[:n-1]
+		<-it.hb // acquire: ordered after the Put of this very item
+		return it.v, true
+	}
+	return nil, false
 }
 
 func (p *Pool) Get() any {
 	if vsched.S == nil {
 		p.mu.Lock()
 		defer p.mu.Unlock()
-		if n := len(p.items); n > 0 {
-			x := p.items[n-1]
-			p.items = p.items[:n-1]
-			return x
+		if v, ok := p.pop(); ok {
+			return v
 		}
 		if p.New != nil {
 			return p.New()
@@ -131,13 +148,10 @@ func (p *Pool) Get() any {
 		return nil
 	}
 	vsched.Point("pool.Get")
-	p.mu.Lock()
-	defer p.mu.Unlock()
-	if n := len(p.items); n > 0 {
+	if len(p.items) > 0 {
 		if p.New == nil || vsched.S.X.Choose(explore.KPool, 2) == 0 {
-			x := p.items[n-1]
-			p.items = p.items[:n-1]
-			return x
+			v, _ := p.pop()
+			return v
 		}
 	}
 	if p.New != nil {
@@ -147,9 +161,13 @@ func (p *Pool) Get() any {
 }
 
 func (p *Pool) Put(x any) {
-	p.mu.Lock()
-	p.items = append(p.items, x)
-	p.mu.Unlock()
+	it := poolItem{v: x, hb: make(chan struct{}, 1)}
+	it.hb <- struct{}{} // release
+	if vsched.S == nil {
+		p.mu.Lock()
+		defer p.mu.Unlock()
+	}
+	p.items = append(p.items, it)
 }
 
 // Reset empties the pool (between executions).
